@@ -14,3 +14,7 @@ def run(rep: Report, repo: Repo, tier: str) -> None:
     misc_rules.rule_document_order(rep, repo, "C07-R3")
     misc_rules.rule_writer_first_element(rep, repo, "C07-R3w")
     writer_rules.rule_directive_order(rep, repo, "C07-R4")
+    # nested reST constructs inside a doc text (directive bodies, literal blocks) are only valid if the cleaner keeps the
+    # relative indentation of the doccomment lines and the paragraph prefixes every line uniformly
+    misc_rules.rule_clean_parameters(rep, repo, "C07-R5")
+    writer_rules.rule_paragraph(rep, repo, "C07-R5p")
